@@ -134,6 +134,25 @@ def band_requests(case: dict[str, Any]) -> list[float]:
     return [m if up else -m for m in mags if m > 1e-6]
 
 
+def excl_hook_mismatch(case: dict[str, Any], multi_in: dict[str, Any] | None, up: bool) -> list[Any]:
+    """Invariant at a hook: the per-inverter exclusion bound the split stage works with is that inverter's own bound
+    (documented in `_inclusion_exclusion_bounds`: inverter exclusion bounds are *not* adjusted to the battery's).
+    Returns [(inverter id, bound used, own bound)] for every inverter where that is not so."""
+    from . import batdata
+
+    if not multi_in:
+        return []
+    bad = []
+    for g, grp in enumerate(case["groups"]):
+        for j, inv in enumerate(grp["invs"]):
+            iid = batdata.inv_id(g, j)
+            used = multi_in["excl"].get(str(iid))
+            own = inv["eu"] if up else -inv["el"]
+            if used is not None and abs(used - own) > 1e-9 * max(1.0, abs(own)):
+                bad.append([iid, used, own])
+    return bad
+
+
 def stage_report(case: dict[str, Any], out: dict[str, Any]) -> dict[str, Any]:
     """Stage identities (all in the direction-normalised, positive, frame)."""
     st = out["stages"]
@@ -153,4 +172,5 @@ def stage_report(case: dict[str, Any], out: dict[str, Any]) -> dict[str, Any]:
             per_set[key] = placed - v["power"]
         rep["s3_err_by_set"] = per_set
         rep["s3_err"] = sum(per_set.values())
+        rep["excl_hook_mismatch"] = excl_hook_mismatch(case, st["multi_in"], case["power"] > 0)
     return rep
